@@ -93,5 +93,7 @@ where
         }
     }
 
-    (colored, max_color + 1)
+    // a graph without nodes uses no colour at all
+    let nb_colors = if colored.is_empty() { 0 } else { max_color + 1 };
+    (colored, nb_colors)
 }
